@@ -168,8 +168,8 @@ def distance (el : Ell) (lon1 lat1 lon2 lat2 : Num) : PyRes (Num × Num) :=
               let error := pround0 (dist * fe * fe)
               .ok (dist, error)
 
-/-- `sin(Angle(0, 0, 8.794).rad())`: `dms2deg(0, 0, 8.794) = 1.0 * (0 + 0/60.0 + 8.794/3600.0)`. -/
-def sin_pi0 : Num := psin (pradians (1.0 * (0 + 0 / 60.0 + 8.794 / 3600.0)))
+/-- `sin(Angle(0, 0, 8.794).rad())`: `dms2deg(0, 0, 8.794) = reduce_deg(1.0 * (0 + 0/60.0 + 8.794/3600.0))`. -/
+def sin_pi0 : Num := psin (pradians (reduce_deg (1.0 * (0 + 0 / 60.0 + 8.794 / 3600.0))))
 
 /-- `Earth.parallax_correction(right_ascension, declination, latitude, distance, hour_angle, height)`
     (uses `Earth()`, i.e. WGS84): degree values of `(right_ascension + delta_a, dec)`. -/
@@ -188,12 +188,17 @@ def parallax_correction (ra dec lat dist ha height : Num) : PyRes (Num × Num) :
         let delta_a := patan2 ((-rcos) * sin_pi * psin (pradians ha))
                               (pcos (pradians dec) - rcos * sin_pi * pcos (pradians ha))
         let delta_a := angle_of_rad delta_a
-        -- dec = atan2((sin(dec) - rho_sinphi * sin_pi) * cos(delta_a.rad()), cos(dec) - rho_cosphi*sin_pi*cos(H))
-        let d := patan2 ((psin (pradians dec) - rsin * sin_pi) * pcos (pradians delta_a))
-                        (pcos (pradians dec) - rcos * sin_pi * pcos (pradians ha))
-        let d := angle_of_rad d
-        -- return (right_ascension + delta_a), dec
-        .ok (angle_add ra delta_a, d)
+        -- ynum = -rho_cosphi * sin_pi * sin(H) ; xden = cos(dec) - rho_cosphi * sin_pi * cos(H)
+        let ynum := (-rcos) * sin_pi * psin (pradians ha)
+        let xden := pcos (pradians dec) - rcos * sin_pi * pcos (pradians ha)
+        -- dec = atan2(sin(dec) - rho_sinphi * sin_pi, sqrt(ynum * ynum + xden * xden))
+        match fsqrt (ynum * ynum + xden * xden) with
+        | .error x => .error x
+        | .ok hyp =>
+          let d := patan2 (psin (pradians dec) - rsin * sin_pi) hyp
+          let d := angle_of_rad d
+          -- return (right_ascension + delta_a), dec
+          .ok (angle_add ra delta_a, d)
 
 /-- `Earth.parallax_ecliptical(longitude, latitude, semidiameter, obs_lat, obliquity, sidereal_time,
     distance, height)`: degree values of `(topo_lon, topo_lat, topo_semi)`. -/
@@ -214,24 +219,26 @@ def parallax_ecliptical (lon lat semi obs_lat obl sid dist height : Num) : PyRes
         let oblr := pradians obl
         -- n = cos(lonr) * cos(latr) - rho_cosphi * sin_pi * cos(sidr)
         let n := pcos lonr * pcos latr - rcos * sin_pi * pcos sidr
-        -- topo_lon = atan2(sin(lonr)*cos(latr) - sin_pi*(rho_sinphi*sin(oblr) + rho_cosphi*cos(oblr)*sin(sidr)), n)
-        let tl := patan2 (psin lonr * pcos latr - sin_pi * (rsin * psin oblr + rcos * pcos oblr * psin sidr)) n
-        -- topo_lon = Angle(topo_lon, radians=True).to_positive()
-        let topo_lon := to_positive (angle_of_rad tl)
-        let tlonr := pradians topo_lon
-        -- topo_lat = atan2(cos(tlonr)*(sin(latr) - sin_pi*(rho_sinphi*cos(oblr) - rho_cosphi*sin(oblr)*sin(sidr))), n)
-        let tb := patan2 (pcos tlonr * (psin latr - sin_pi * (rsin * pcos oblr - rcos * psin oblr * psin sidr))) n
-        let topo_lat := to_positive (angle_of_rad tb)
-        -- if abs(topo_lat) > 90.0: topo_lat = topo_lat - 180.0
-        let topo_lat := if plt 90.0 (reduce_deg (pabs topo_lat)) then angle_sub topo_lat 180.0 else topo_lat
-        let tlatr := pradians topo_lat
-        -- topo_semi = asin((cos(tlonr) * cos(tlatr) * sin(semir)) / n)
-        match fdiv (pcos tlonr * pcos tlatr * psin semir) n with
+        -- ylon = sin(lonr)*cos(latr) - sin_pi*(rho_sinphi*sin(oblr) + rho_cosphi*cos(oblr)*sin(sidr))
+        let ylon := psin lonr * pcos latr - sin_pi * (rsin * psin oblr + rcos * pcos oblr * psin sidr)
+        -- topo_lon = atan2(ylon, n) ; topo_lon = Angle(topo_lon, radians=True).to_positive()
+        let topo_lon := to_positive (angle_of_rad (patan2 ylon n))
+        -- hyp = sqrt(ylon * ylon + n * n)
+        match fsqrt (ylon * ylon + n * n) with
         | .error x => .error x
-        | .ok q =>
-          match fasin q with
+        | .ok hyp =>
+          -- topo_lat = atan2(sin(latr) - sin_pi*(rho_sinphi*cos(oblr) - rho_cosphi*sin(oblr)*sin(sidr)), hyp)
+          let tb := patan2 (psin latr - sin_pi * (rsin * pcos oblr - rcos * psin oblr * psin sidr)) hyp
+          -- topo_lat = Angle(topo_lat, radians=True)
+          let topo_lat := angle_of_rad tb
+          let tlatr := pradians topo_lat
+          -- topo_semi = asin((cos(tlatr) * sin(semir)) / hyp)
+          match fdiv (pcos tlatr * psin semir) hyp with
           | .error x => .error x
-          | .ok ts => .ok (topo_lon, topo_lat, angle_of_rad ts)
+          | .ok q =>
+            match fasin q with
+            | .error x => .error x
+            | .ok ts => .ok (topo_lon, topo_lat, angle_of_rad ts)
 
 end Ellipsoid
 end Pymeeus.Gen@K@
